@@ -30,6 +30,10 @@ pub struct SatCase {
     /// Runner only: the hook unites the i-th and j-th inserted term at iteration k (a hook that changes the e-graph)
     #[serde(default)]
     pub hook_union: Option<(u8, u16, u16)>,
+    /// Runner only: the node limit is the size of the start e-graph plus this offset (limits right at the sizes the run
+    /// passes through), instead of `node_limit`
+    #[serde(default)]
+    pub node_limit_rel: Option<i8>,
 }
 
 pub fn lookup_pattern<L: Language, N: Analysis<L>>(eg: &EGraph<L, N>, p: &Pattern<L>, subst: &Subst) -> Option<Option<AppliedId>> {
@@ -126,7 +130,13 @@ fn run_l<L: Language + 'static>(c: &SatCase, obs: &mut Obs) -> Result<(), String
         return Ok(());
     }
     let iter_limit = c.iter_limit as usize;
-    let node_limit = c.node_limit as usize;
+    let node_limit = match c.node_limit_rel {
+        Some(r) => (eg.total_number_of_nodes() as i64 + r as i64).max(0) as usize,
+        None => c.node_limit as usize,
+    };
+    if c.node_limit_rel.is_some() {
+        obs.label("node-limit-near-start-size");
+    }
     match c.mode % 3 {
         0 => {
             // manual loop: apply_rewrites == false  =>  nothing observable changed
@@ -320,8 +330,56 @@ fn strategy(lang: LangId) -> BoxedStrategy<SatCase> {
         0u8..3,
         any::<bool>(),
         crate::engine::opt_weighted(0.3, (0u8..3, any::<u16>(), any::<u16>())),
+        crate::engine::opt_weighted(0.35, -2i8..6),
     )
-        .prop_map(|(base, rules, iter_limit, node_limit, hook_fail_at, mode, staged, hook_union)| SatCase { base, rules, iter_limit, node_limit, hook_fail_at, mode, staged, hook_union })
+        .prop_map(|(base, rules, iter_limit, node_limit, hook_fail_at, mode, staged, hook_union, node_limit_rel)| SatCase { base, rules, iter_limit, node_limit, hook_fail_at, mode, staged, hook_union, node_limit_rel })
+        .boxed()
+}
+
+/// Start e-graphs whose node count first grows and then shrinks while rewriting: several parents P_i(A) and P_i(C[A]) where the
+/// context C rewrites away in two or three steps (q2-drop, ww, p-c0), so that the P_i(C[A]) collapse onto the P_i(A) by congruence
+/// a few iterations into the run; the node limit lies at or just above the start size.
+fn collapse_strategy() -> BoxedStrategy<SatCase> {
+    use crate::tm::*;
+    (proptest::collection::vec(any::<u16>(), 0..40), proptest::collection::vec(0usize..64, 0..3), 0u8..7, -2i8..6, crate::engine::opt_weighted(0.2, 0u8..4))
+        .prop_map(|(ch, extra_rules, iter_limit, rel, hook_fail_at)| {
+            let mut src = Src::new(&ch);
+            let sig = LangId::Core.sig();
+            let pool = rule_pool(LangId::Core);
+            let kk = |t: Tm| Arg::K(vec![], t);
+            let g = GenCfg { alphabet: 3, max_depth: 1, ops: Some(vec!["v", "c0", "f2", "c1", "w", "p"]), ..GenCfg::default() };
+            let a = gen_tm(&sig, &g, &mut src, 0);
+            let c0 = || Tm::node("c0", vec![]);
+            let c1 = || Tm::node("c1", vec![]);
+            let w = |t: Tm| Tm::node("w", vec![Arg::K(vec![], t)]);
+            // contexts that rewrite to their hole in 1-3 iterations
+            let ctx = match src.pick(5) {
+                0 => Tm::node("q2", vec![Arg::S(7), kk(w(a.clone()))]),                          // q2-drop, then ww
+                1 => Tm::node("p", vec![kk(w(w(a.clone()))), kk(c0())]),                          // ww, then p-c0 (or the other way round)
+                2 => w(w(a.clone())),                                                             // ww
+                3 => Tm::node("q2", vec![Arg::S(7), kk(w(Tm::node("p", vec![kk(a.clone()), kk(c0())])))]), // q2-drop, p-c0, ww
+                _ => Tm::node("p", vec![kk(Tm::node("q2", vec![Arg::S(7), kk(w(a.clone()))])), kk(c0())]),
+            };
+            let parents: Vec<Box<dyn Fn(Tm) -> Tm>> = vec![
+                Box::new(move |t| Tm::node("p", vec![Arg::K(vec![], t), Arg::K(vec![], Tm::node("c1", vec![]))])),
+                Box::new(move |t| Tm::node("t3", vec![Arg::K(vec![], Tm::node("c1", vec![])), Arg::K(vec![], t), Arg::K(vec![], Tm::node("c1", vec![]))])),
+                Box::new(move |t| Tm::node("lam", vec![Arg::K(vec![9], t)])),
+                Box::new(move |t| Tm::node("p", vec![Arg::K(vec![], Tm::leaf("v", &[8])), Arg::K(vec![], t)])),
+                Box::new(move |t| Tm::node("t3", vec![Arg::K(vec![], t.clone()), Arg::K(vec![], Tm::node("c1", vec![])), Arg::K(vec![], t)])),
+            ];
+            let _ = c1;
+            let n_par = 2 + src.pick(4);
+            let mut ops = Vec::new();
+            for i in 0..n_par {
+                let p = &parents[(i + src.pick(2)) % parents.len()];
+                ops.push(MOp::Add(p(a.clone())));
+                ops.push(MOp::Add(p(ctx.clone())));
+            }
+            let mut rules: Vec<usize> = ["q2-drop", "ww", "p-c0"].iter().map(|n| pool.iter().position(|r| r.name == *n).unwrap()).collect();
+            rules.extend(extra_rules.iter().map(|i| i % pool.len()));
+            let base = Mixed { lang: LangId::Core, naming: Naming::Alpha, ops, extraction_subst: false, rule_slot_variant: 0 };
+            SatCase { base, rules, iter_limit, node_limit: 400, hook_fail_at, mode: 1, staged: false, hook_union: None, node_limit_rel: Some(rel) }
+        })
         .boxed()
 }
 
@@ -352,5 +410,25 @@ pub fn property(tier: Tier) -> Property {
             exhaustive: false,
         }));
     }
+    stages.push(Box::new(Stage {
+        name: "sat-core-collapse",
+        source: random(collapse_strategy, tier.pick(2000, 40_000)),
+        run,
+        panic_is_violation: false,
+        render: |c: &SatCase| {
+            let pool = rule_pool(c.base.lang);
+            format!(
+                "{} rules=[{}] iter_limit={} node_limit=start{:+} hook_fail_at={:?} mode=Runner",
+                c.base.render(),
+                c.rules.iter().map(|i| pool[*i % pool.len()].name).collect::<Vec<_>>().join(","),
+                c.iter_limit,
+                c.node_limit_rel.unwrap_or(0),
+                c.hook_fail_at
+            )
+        },
+        rule: "Runner on start e-graphs whose e-node count first grows and then shrinks: 2-5 parents over a term A and over a context around A that rewrites away in 1-3 iterations (q2-drop, ww, p-c0, plus 0-2 random rules), so that the parents collapse by congruence in a later iteration; iteration limit 0-6, node limit = start size -2..+5; stop reason must be true of the final e-graph, report must agree with it; non-trivial = at least 2 iterations",
+        case_timeout_s: tier.pick(30, 120),
+        exhaustive: false,
+    }));
     Property { id: "C15", scale: tier.pick(5, 2), stages, assumptions: vec!["time limits are set far away; TimeLimit is never asserted about".into()] }
 }
